@@ -62,14 +62,13 @@ func rulePersistBeforeServe(c *Ctx) {
 				n++
 				c.saw(fnName(fn))
 				v := st.Val // load of the local status
-				persisted := &calledEv{name: "drPersistStatus(dr)", match: func(x ssa.Instruction) bool {
-					ci, ok := x.(ssa.CallInstruction)
-					if !ok || !persist.Match(ci.Common()) {
+				persisted := newOkEv(fn, "ok(drPersistStatus(dr))", func(cl *ssa.Call) bool {
+					if !persist.Match(cl.Common()) {
 						return false
 					}
-					a := callArgs(ci.Common())
+					a := callArgs(cl.Common())
 					return len(a) == 1 && sameVal(a[0], v)
-				}}
+				})
 				saved := newOkEv(fn, "ok(SaveReplicationStatus(dr))", func(cl *ssa.Call) bool {
 					if !save.Match(cl.Common()) {
 						return false
@@ -422,7 +421,11 @@ func ruleStatusReachesCache(c *Ctx) {
 
 func init() {
 	register("C19", "DR auto-sync only declares 'sync' when every region is in sync", func(c *Ctx) {
-		c.Group("C19/persist-before-serve", "a new status is offered to members and saved (same value) before it is served; its state id comes from a successful AllocID; the served status is otherwise only loaded or given progress numbers; accessed under the manager lock", func() { rulePersistBeforeServe(c); ruleTransitionIsOneCriticalSection(c); ruleMembersGetTheNewStatus(c) })
+		c.Group("C19/persist-before-serve", "a new status is offered to members and saved (same value) before it is served; its state id comes from a successful AllocID; the served status is otherwise only loaded or given progress numbers; accessed under the manager lock", func() {
+			rulePersistBeforeServe(c)
+			ruleTransitionIsOneCriticalSection(c)
+			ruleMembersGetTheNewStatus(c)
+		})
 		c.Group("C19/transition-guards", "tickDR: →async, async→sync_recover and sync_recover→sync are called only under their stated conditions; UpdateConfig rolls its config back when the switch fails", func() { ruleTransitionGuards(c); ruleFailedStoreCount(c) })
 		c.Group("C19/recovery", "entering sync_recover resets the cursor; the cursor advances only past contiguous regions reporting integrity under the current state id; progress 1.0 only after the whole key space", func() { ruleRecoveryAtoms(c); ruleStatusReachesCache(c) })
 	})
@@ -505,6 +508,21 @@ func ruleTransitionIsOneCriticalSection(c *Ctx) {
 	}
 	if n < 3 {
 		c.Undec(rule, "state transitions (→async, →sync_recover, →sync)", "3", "", fmt.Sprint(n))
+	}
+	// saved → served: once the new status is in storage and the function goes on to report success, it is published
+	k := 0
+	for _, fn := range P.Funcs {
+		if P.isScaffold(fn) || fnPkgPath(fn) != modPath+"/"+rep || fn.Parent() != nil || len(callsIn(fn, false, save)) == 0 || len(callsIn(fn, false, allocID)) == 0 {
+			continue
+		}
+		k++
+		c.mustFollow(rule, fn, "SaveReplicationStatus", instrCallMatcher(save), "m.drAutoSync = dr", func(x ssa.Instruction) bool {
+			st, isSt := x.(*ssa.Store)
+			return isSt && fieldOfAddr(st.Addr) == dr && !isFreshBase(st.Addr)
+		}, errorExit, "a status that was saved is the status served from then on (stored and served state do not drift apart)")
+	}
+	if k < 3 {
+		c.Undec(rule, "functions saving a new status", "3", "", fmt.Sprint(k))
 	}
 }
 
